@@ -259,6 +259,51 @@ func (x *NALL) UnmarshalJSON(b []byte) error {
 	return nil
 }
 
+// marshalers whose encoded form is EMPTY but not nil for the zero value (names end in 0: the sweep uses A = 0)
+type TE0 struct{ A int }
+
+func (x TE0) MarshalText() ([]byte, error) {
+	encCalls["text"]++
+	if x.A == 0 {
+		return []byte{}, nil
+	}
+	return []byte("t" + strconv.Itoa(x.A)), nil
+}
+func (x *TE0) UnmarshalText(b []byte) error {
+	decCalls["text"]++
+	if len(b) == 0 {
+		x.A = 0
+	} else {
+		x.A = unbin(b, "t")
+	}
+	return nil
+}
+
+type BE0 struct{ A int }
+
+func (x BE0) MarshalBinary() ([]byte, error) {
+	encCalls["binary"]++
+	if x.A == 0 {
+		return []byte{}, nil
+	}
+	return bin(x.A), nil
+}
+func (x *BE0) UnmarshalBinary(b []byte) error {
+	decCalls["binary"]++
+	if len(b) == 0 {
+		x.A = 0
+	} else {
+		x.A = unbin(b, "b")
+	}
+	return nil
+}
+
+// named string with an empty text form for ""
+type NTE0 string
+
+func (x NTE0) MarshalText() ([]byte, error) { encCalls["text"]++; return []byte(string(x)), nil }
+func (x *NTE0) UnmarshalText(b []byte) error { decCalls["text"]++; *x = NTE0(string(b)); return nil }
+
 type xtype struct {
 	name string
 	rt   reflect.Type
@@ -299,6 +344,9 @@ func xtypes() []xtype {
 		{"OM", reflect.TypeOf(OM{}), c("none"), ""},
 		{"OU", reflect.TypeOf(OU{}), c("none"), ""},
 		{"time", reflect.TypeOf(time.Time{}), c("none"), ""},
+		{"TE0", reflect.TypeOf(TE0{}), marsh(false, false, true), ""},
+		{"BE0", reflect.TypeOf(BE0{}), marsh(true, false, false), ""},
+		{"NTE0", reflect.TypeOf(NTE0("")), marsh(false, false, true), ""},
 		{"NT", reflect.TypeOf(NT(0)), marsh(false, false, true), ""},
 		{"NB", reflect.TypeOf(NB("")), marsh(true, false, false), ""},
 		{"NS", reflect.TypeOf(NS(0)), c("selfer"), ""},
@@ -364,7 +412,9 @@ func place(p string, xt reflect.Type, a int) (src reflect.Value, dst reflect.Val
 			case reflect.Uint, reflect.Uint8, reflect.Uint16, reflect.Uint32, reflect.Uint64:
 				v.SetUint(uint64(a))
 			case reflect.String:
-				v.SetString("s" + strconv.Itoa(a))
+				if a != 0 {
+					v.SetString("s" + strconv.Itoa(a))
+				}
 			}
 		}
 		return v
@@ -448,7 +498,7 @@ func main() {
 	cases := flag.String("cases", "/verif/build/c17/cases", "directory for the model case files")
 	flag.Parse()
 	r := vh.NewRng(vh.SeedFromEnv())
-	sum := vh.NewSummary("20 types (named scalar-kind types with Text / Binary / Selfer / all pairs, BytesExt/InterfaceExt, SelfExt, ext+Selfer, Selfer value/pointer receiver, Selfer+marshalers, Binary/Text/JSON marshaler pairs with value and pointer receivers, all three pairs, marshal-only, unmarshal-only, time.Time) x 10 positions x root by value / by pointer x 5 formats x option vectors (Canonical on in every second round); distinct by (type, position, root, format, mechanism observed)")
+	sum := vh.NewSummary("23 types (Text / Binary marshalers whose form is empty-not-nil for the zero value, named scalar-kind types with Text / Binary / Selfer / all pairs, BytesExt/InterfaceExt, SelfExt, ext+Selfer, Selfer value/pointer receiver, Selfer+marshalers, Binary/Text/JSON marshaler pairs with value and pointer receivers, all three pairs, marshal-only, unmarshal-only, time.Time) x 10 positions x root by value / by pointer x 5 formats x option vectors (Canonical on in every second round); distinct by (type, position, root, format, mechanism observed)")
 	cv := vh.NewCases(*cases, "From Coq Require Import List NArith Bool.\nFrom Verif Require Import Gen.Choice C17.Model C17.Corr.\nImport ListNotations.", "case", "mismatches", 60)
 	id := 0
 	for _, format := range vh.Formats {
@@ -472,7 +522,11 @@ func main() {
 						continue // a json object key must be a string: only the text/json forms are
 					}
 					for _, byPtr := range []bool{false, true} {
-						src, dst := place(p, xt.rt, 5+id%50)
+						sample := 5 + id%50
+						if strings.HasSuffix(xt.name, "0") {
+							sample = 0 // the marshaled form is empty (not nil)
+						}
+						src, dst := place(p, xt.rt, sample)
 						var in interface{} = src.Interface()
 						if byPtr {
 							if !src.CanAddr() {
